@@ -81,7 +81,8 @@ fn worker<C: SimpleCase>(gen: &(dyn Fn(&mut Rng, bool) -> C + Sync), cfg: &RunCf
       r.model_oracle_failures += 1;
       if r.failures.iter().filter(|x| x["kind"] == "model-oracle").count() < 3 { r.failures.push(json!({ "kind": "model-oracle", "clause": f.clause, "detail": f.detail, "known": null, "case": case.describe() })); }
     } }
-    if case.project(&oi) != case.project(&om) {
+    let known_case = !fi.is_empty() && fi.iter().all(|f| case.known(f).is_some());
+    if !known_case && case.project(&oi) != case.project(&om) {
       r.corr_failures += 1;
       if shrunk.len() < cfg.max_shrink && shrunk.insert("corr".into()) {
         let c2 = shrink_with(&case, &mut |c| { let b = d.ask(&c.reqs()); !b.iter().any(|o| o == "bad-op") && c.project(&c.run_impl()) != c.project(&b) });
